@@ -113,6 +113,7 @@ type Task struct {
 	ord     int            // total fallible seam calls so far
 	held    []string       // database locks held, "srv|id", in acquisition order
 	heldBy  map[string]string // held key -> library function that took it
+	netOcc  map[string]int    // real transport: deliveries per recipient URL of this batch
 	fn      func()
 	// outcome of an entry call
 	Handled  bool
